@@ -67,6 +67,16 @@ def run(res, drv, tier, seed):
 
 
 def search(res, tier, seed, broken):
+    # say which statement of which mechanism the flow check rejects (diagnostic mirror of PGM.Flow.flow)
+    try:
+        import sys, os
+        sys.path.insert(0, os.path.join(os.path.dirname(os.path.dirname(os.path.abspath(__file__))), 'tools'))
+        import py2flow, common
+        res.extra['flow_check_explanation'] = py2flow.explain_all(common.REPO)
+        for b in broken:
+            b['detail'] = (b.get('detail') or '') + ' | flow check: ' + str({k: v for k, v in res.extra['flow_check_explanation'].items() if v != 'accepted'})[:600]
+    except Exception as e:
+        res.extra['flow_check_explanation'] = 'translator failed: ' + repr(e)[:300]
     run(res, None, 'quick', seed + 1)
 
 
